@@ -60,14 +60,16 @@ def gen_l1(rng):
             ops.append(["S", n, rng.choice([rand_value(rng), rand_value(rng), "", "p1 @ -l", n + " -l"]).replace("\n", "")])
         elif r < 0.45:
             v = rand_value(rng).replace("\n", rng.choice(["", "\n"]))
-            form = rng.choice([n + "=" + v, n + "='" + v + "'", n + '="' + v + '"', "=" + v, n + " =" + v, n + "!=" + v])
+            form = rng.choice(["N" + n + "=" + v, "N" + n + "='" + v + "'", "N" + n + '="' + v + '"', "N=" + v, "N" + n + " =" + v,
+                               "N" + n + "!=" + v, "S" + n + "=" + v, "D" + n + "=" + v, "S" + n + '="' + v + '" x',
+                               "D" + n + "='" + v + "' x"])
             ops.append(["B", form])
         elif r < 0.52:
             ops.append(["B"])
         elif r < 0.60:
-            ops.append(["B", rng.choice(NAMES)])
+            ops.append(["B", "N" + rng.choice(NAMES)])
         elif r < 0.63:
-            ops.append(["B", n, "x"])
+            ops.append(["B", "N" + n, "Nx"])
         elif r < 0.73:
             ops.append(rng.choice([["U", n], ["U", n], ["U"], ["U", n, "x"]]))
         else:
@@ -165,7 +167,10 @@ def layer1(ctx, res):
                 f = ["bi" if o[0] == "B" else "un", str(len(table))]
                 for k in sorted(table):
                     f += [C.enc(k), C.enc(table[k])]
-                f += [str(len(o) - 1)] + [C.enc(a) for a in o[1:]]
+                if o[0] == "B":
+                    f += [str(len(o) - 1)] + [x for a in o[1:] for x in (C.enc({"N": "", "S": "'", "D": '"'}[a[0]]), C.enc(a[1:]))]
+                else:
+                    f += [str(len(o) - 1)] + [x for a in o[1:] for x in ("", C.enc(a))]
                 f += [str(len(rec["unq"]))] + [C.enc(x) for p in rec["unq"] for x in p]
                 mcases.append("\t".join(f))
                 back.append((i, j, o[0], rec, dict(table), tokmap))
@@ -209,6 +214,9 @@ def layer1(ctx, res):
                     res.violate(kind="correspondence", layer="L1", failing_input=False, function="unquote(name)", input=a, impl=b)
                 if len(a) >= 2 and a[0] == "'" and a[-1] == "'" and "'" not in a[1:-1] and "\n" not in a and b != a[1:-1]:
                     res.violate(kind="correspondence", layer="L1", failing_input=False, function="unquote('v')", input=a, impl=b)
+                if len(a) >= 2 and a[0] == '"' and a[-1] == '"' and not any(ch in a[1:-1] for ch in '"$`\\') and "\n" not in a \
+                        and b != a[1:-1]:
+                    res.violate(kind="correspondence", layer="L1", failing_input=False, function='unquote("v")', input=a, impl=b)
     res.count("L1_scenarios", len(scns))
     res.count("L1_model_vs_impl_ops", len(back))
     res.extra["L1_scenarios_skipped_tokenizer_panic"] = skipped
@@ -390,7 +398,7 @@ def layer2(ctx, res, known):
             continue
         # feeding the listing back
         want = sorted(listing_line(*kv) for kv in table.items())
-        in_class = any("'" in v for v in table.values())
+        in_class = any("'" in v and any(ch in v for ch in '"$`\\') for v in table.values())
         if again == want:
             if in_class:
                 repaired = True
@@ -418,6 +426,8 @@ def layer2(ctx, res, known):
 
 def listing_line(n, v):
     """builtins/alias.rs show_alias_list / show_single_alias"""
+    if "'" in v and not any(ch in v for ch in '"$`\\'):
+        return 'alias %s="%s"' % (n, v)
     return "alias %s='%s'" % (n, v)
 
 
@@ -438,7 +448,7 @@ def probes_quoted_head(ctx, res, known):
             pre = "alias %s=" % n
             got = out.strip("\n")
             body = got[len(pre) + 1:-1] if got.startswith(pre) and len(got) >= len(pre) + 2 else None
-            faithful = shlex.split(v)[0] if ("-" in n or "." in n) else v
+            faithful = v
             res.count("L2_quoted_head_probes", 1)
             if body == v:
                 if faithful != v:
